@@ -17,10 +17,10 @@ CHECKS = {
    text="Accept/reject agreement with a reference validator transcribed from the statement, accessor-by-accessor comparison and byte-exact re-encoding, over constructed valid packets with one-rule-at-a-time mutations, an explicit enumeration of the decision-table cells, and libFuzzer byte strings. Both build profiles.",
    note="The reference validator is trusted as the reading of the statement; both sides share only the board MAC table.", ref="DESIGN.md section 4 C02"),
  "C03": dict(engine="proptest+libfuzzer", technique="differential testing (own bitwise CRC-32C reference) + fault injection: exhaustive single-bit flips, sampled 2/3-bit flips, bursts at every offset",
-   text="Reference validator with an independent CRC-32C agrees on every generated chunk; accepted chunks re-encode to the input; every 1-bit flip (exhaustive up to 4 KiB), sampled 2/3-bit flips and a <=32-bit burst at every bit offset of each accepted chunk are rejected.",
+   text="Reference validator with an independent CRC-32C agrees on every generated chunk; accepted chunks re-encode to the input; every 1-bit flip (exhaustive up to 4 KiB), sampled 2/3-bit flips and a <=32-bit burst at every bit offset of each accepted chunk are rejected; 44 payload-length classes around 2^k and at the top of the 16-bit length field are covered in both tiers.",
    note="2/3-bit flips are sampled, not exhaustive. Burst bit order = transmission order (LSB first).", ref="DESIGN.md section 4 C03"),
  "C04": dict(engine="proptest+libfuzzer", technique="metamorphic testing over arrival orders (all n! up to 6 chunks) + differential against direct decoding + single-fault injection",
-   text="Every arrival order (identity, reversal, adjacent transpositions, a generated permutation, all n! for <= 6 chunks) gives the same result; fault-free result equals direct decoding of the concatenation; every single fault (drop/duplicate/foreign board/foreign chip/EOM toggle/resize) is rejected.",
+   text="Every arrival order (identity, reversal, adjacent transpositions, a generated permutation, all n! for <= 6 chunks) gives the same result; fault-free result equals direct decoding of the concatenation; every injected fault (drop, duplicate, foreign board, foreign chip, EOM toggle, resize, renumbered id, bytes moved between chunks, one id lost and another repeated) is rejected.",
    note="Orders beyond 6 chunks are sampled.", ref="DESIGN.md section 4 C04"),
  "C05": dict(engine="proptest+libfuzzer", technique="differential testing against an independent reference validator + accessor model + round trip (proptest, libFuzzer)",
    text="Reference validator agreement, channel lists through an independent readout table, waveform_at for all 79 channels (present/absent), scalar accessors, byte-exact re-encoding; constructed packets with one-rule mutations, systematic single-channel masks and all values of the four enum-like header bytes.",
@@ -32,19 +32,19 @@ CHECKS = {
    text="Entries, consumed length and untouched remainder equal a 30-line reference scanner; a second call makes no progress; feeding the stream in pieces (every single cut position, generated multi-piece partitions) equals parsing it whole; word classification enumerated (all 2^32 words in thorough).",
    note="Multi-piece partitions are sampled.", ref="DESIGN.md section 4 C07"),
  "C08": dict(engine="proptest", technique="exhaustive enumeration (names, run numbers, boards x chips x channels) against a reference grammar and bijection counting, plus proptest for non-ASCII / other lengths",
-   text="Every 4-byte name over an alphabet (all 128^4 ASCII strings in thorough) and other lengths through all 13 name parsers against a reference grammar; accepted names injective; for every run number 0..=20000 and extremes the wire map is a bijection onto 256 wires or all-Err, the PWB placement has exactly 64 boards on 64 cells or all-Err, the pad map is a bijection onto 18432 pads; simulation == run 5000; wire/pad-column association equals geometry.",
+   text="Purity of the maps under generated call histories and a board-major sweep (same answer as in a run-major sweep); every 4-byte name over an alphabet (all 128^4 ASCII strings in thorough) and other lengths through all 13 name parsers against a reference grammar; accepted names injective; for every run number 0..=20000 and extremes the wire map is a bijection onto 256 wires or all-Err, the PWB placement has exactly 64 boards on 64 cells or all-Err, the pad map is a bijection onto 18432 pads; simulation == run 5000; wire/pad-column association equals geometry.",
    note="Geometry association is read through the verif-hooks feature (wire_to_pad_column / pad_column_to_wires); golden board tables trusted.", ref="DESIGN.md section 4 C08"),
  "C09": dict(engine="proptest", technique="property-based robustness testing (proptest): junk bank lists, realistic and forward-model events, CRC-valid extreme edits; catch_unwind + finiteness oracle; both overflow-check profiles; thorough tier adds coverage-guided fuzzing (honggfuzz) of a byte-driven event generator",
    text="No generated bank list makes event building, timestamp(), avalanches() or vertex() panic, and every returned avalanche/vertex is finite, in builds with and without overflow checks; generated: junk banks, hit-pattern events, forward-model annihilations, and events re-encoded with valid CRCs/baselines after extreme edits (i16/ADC limits, waveform lengths 64..703 (65533 thorough), requested_samples 0/1/100/101/511, all 79 channels, full wire ring, duplicated/dropped/foreign/corrupted banks, all calibration eras).",
    note="An abort / stack overflow kills the process: the check then replays the per-worker breadcrumb cases in fresh processes and reports the one that dies again as the violation.", ref="DESIGN.md section 4 C09"),
  "C10": dict(engine="proptest", technique="model-based testing: slot-by-slot reference model of the event's signal arrays (own calibration reader) compared through a read-only hook; single-fault injection; hook-free single-pulse variant",
-   text="For generated events over all boards/chips/channels, run eras and bank orders the wire and pad signal arrays equal an independent model exactly (slot, delay, baseline, gain by f64 bits), the timestamp is the TRG field, fault-free events are accepted exactly when all maps/calibrations exist and every injected single inconsistency (14 kinds) is rejected; a hook-free variant checks wire, time bin and pad row of single pulses through avalanches().",
+   text="For generated events over all boards/chips/channels, run eras and bank orders the wire and pad signal arrays equal an independent model exactly (slot, delay, baseline, gain by f64 bits), the timestamp is the TRG field, fault-free events are accepted exactly when all maps/calibrations exist and every injected single inconsistency (18 kinds, incl. malformed wire / PWB / TRG payloads that the reference validators of C02 / C05 / C06 reject) is rejected; a hook-free variant checks wire, time bin and pad row of single pulses through avalanches().",
    note="Uses verif-hooks accessors; calibration files parsed with the same serde crates as the library; header-only duplicate packets are out of scope (see DESIGN).", ref="DESIGN.md section 4 C10"),
  "C11": dict(engine="proptest", technique="metamorphic testing over bank permutations (all adjacent transpositions, reversal, generated) and repetition across threads and fresh child processes",
    text="Build outcome and signal arrays are identical for every tested bank order; the full result (Ok/Err, timestamp, avalanche sequence and vertex by bits) is identical for reversal, generated orders, two evaluations in one thread, four other threads and - sampled - fresh child processes (different HashMap seeds); includes inconsistent PWB messages that collide on the same pads.",
    note="OS scheduling is not controlled; only thread identity, repetition and process boundaries vary.", ref="DESIGN.md section 4 C11"),
  "C12": dict(engine="proptest", technique="statistical property test over an independent forward model of the detector (proptest-generated truth, batch statistics against the stated thresholds)",
-   text="Batches of forward-model annihilation events (own simulation: helices, shipped drift table, response functions, induction, digitisation, packing) are reconstructed with MainEvent::vertex(); efficiency, median/P90 |dz|, median transverse error and median signed dz are compared with the property's limits per batch (quick 400 events, thorough 10 x 1000).",
+   text="Batches of forward-model annihilation events (own simulation: helices, shipped drift table, response functions, induction, digitisation, packing) are reconstructed with MainEvent::vertex(); efficiency, median/P90 |dz|, median transverse error and median signed dz are compared with the property's limits per batch and per sub-batch of >= 200 events of one kind (quick: 700 + 200 mixed events and 6 x 200 events of one kind - two tracks, stiff tracks, one curvature sign, vertex near an end, back to back; thorough: 10 x 1000 + 60 x 200 mixed, 70 x 300 of one kind).",
    note="The forward model is the harness's own; margins on the unchanged tree are 4+ standard errors (DESIGN section 4 C12).", ref="DESIGN.md section 4 C12"),
  "C13": dict(engine="proptest", technique="metamorphic testing: all 31 rotations by pad columns and the z mirror applied to calibrated signals, bit-exact comparison of avalanche multisets",
    text="For hit-pattern, block (every block length, seam-straddling, two blocks), forward-model and full-ring signal sets, every rotation maps the avalanche multiset onto itself bit for bit and the mirror negates z within 1e-9 m with identical wires/times/amplitudes; pad-amplitude ties are detected and set aside for the mirror. Full ring = known finding D4 (reported as KNOWN-FINDING, mirror still checked behind it).",
@@ -55,8 +55,8 @@ CHECKS = {
  "C15": dict(engine="proptest", technique="invariant checking over generated multisets: partition (multiset equality by bits), minimum size, single-linkage connectivity (union-find), vertex partition",
    text="Clusters + remainder are exactly the input multiset (by bits, duplicates counted), clusters have >= 13 points and are connected at 3 cm; vertex finding partitions the input tracks and a primary vertex has >= 2 tracks; over C14's point families with exact duplicates and hook-built / fitted track lists.",
    note="Track identity read through the helix_params hook.", ref="DESIGN.md section 4 C15"),
- "C16": dict(engine="proptest", technique="differential testing against a brute-force global minimiser (20001-point grid + golden section), cases generated per pitch decade and in Kepler (e, M) coordinates",
-   text="The reported closest-approach parameter is in [-pi, pi], never NaN and, if interior, no other parameter is closer by more than 1e-9 m: direct calls over all pitch decades and over eccentricity/mean-anomaly coordinates dense around e ~ 1, plus hook-free checks of t_inner/t_outer of fitted tracks and of vertex track parameters.",
+ "C16": dict(engine="proptest", technique="differential testing against a brute-force global minimiser (20001-point grid + golden section), cases generated per pitch decade, in Kepler (e, M) coordinates, and from fitted tracks / vertex tracks of generated point sets and track sets",
+   text="The reported closest-approach parameter is in [-pi, pi], never NaN and, if interior, no other parameter is closer by more than 1e-9 m: direct calls over all pitch decades and over eccentricity/mean-anomaly coordinates dense around e ~ 1, points exactly on the helix axis, helices written with a negative radius; t_inner/t_outer of fitted tracks against the cluster's innermost/outermost point (hook-free on clustered point sets of every family; through the Cluster hook on connected groups with stray end hits and reversed order); per-track parameters of primary vertices of fitted tracks, of hook-built tracks crossing up to 30 cm off axis and of the C14 track sets.",
    note="The minimiser uses the library's Track::at, so only the choice of t is judged.", ref="DESIGN.md section 4 C16"),
  "C17": dict(engine="proptest", technique="differential testing against a naive reference implementation (bit-exact), metamorphic scale covariance (bit-exact), pulse-recovery oracle",
    text="Pad deconvolution equals a one-sample-at-a-time reference bit for bit; outputs finite, non-negative, one per sample/channel; scaling by 2^k scales outputs exactly (pads, wire blocks, whole events through the public API); isolated wire pulses >= 18 samples before the end are recovered to 1e-6 at every ring position.",
